@@ -802,7 +802,11 @@ class VMF:
             Cordon.parse(map_obj, ent)
 
         map_spawn = tree.find_block('world', or_blank=True)
+        placeholder = map_obj.spawn
         map_obj.spawn = worldspawn = Entity.parse(map_obj, map_spawn, _worldspawn=True)
+        # The placeholder worldspawn made by __init__() is not part of the map any more.
+        _remove_copyset(map_obj.by_class, 'worldspawn', placeholder)
+        _remove_copyset(map_obj.by_target, None, placeholder)
         # Ensure the correct classname, which adds to by_class as a side effect. It is possible
         # to name worldspawn, kinda pointless though.
         worldspawn['classname'] = 'worldspawn'
